@@ -37,9 +37,11 @@ def compose(inner, A):
 
 
 def const_usize(t):
-    t = strip(t)
+    t = util.numnorm(strip(t))
     while t[0] == "cast":
         t = t[2]
+    if util.is_call(t) and "From<u" in t[1] and t[1].endswith("::from") and len(t[2]) == 1:
+        return const_usize(t[2][0])
     return t[1] if t[0] == "int" else None
 
 
@@ -109,6 +111,14 @@ class Sem:
             if r is None:
                 return None
             return r[0], (lambda n, f=r[1], k=k: (f(n) + k - 1) // k)
+        if name == "rev" and len(args) == 1:
+            # a reversed constant range: item j is (last - j)
+            r = self.item_at(args[0], (1, 0))
+            if r is None or r[0][0] != "cnt" or r[0][1][0] != 1:
+                return None
+            c = r[1](0)
+            last = r[0][1][1] + c - 1
+            return ("cnt", (-A[0], last - A[1])), r[1]
         if name == "skip":
             k = const_usize(args[1])
             if k is None or k < 0:
